@@ -5,4 +5,7 @@
 From SJ Require Import Model.Oracle.
 From Coq Require Import Extraction ExtrOcamlBasic.
 Extraction Language OCaml.
+(* Coq's List.rev is the quadratic [rev l ++ [x]]; OCaml's List.rev computes the
+   same function in linear time.  This is the only Extract Constant directive. *)
+Extract Inlined Constant List.rev => "Stdlib.List.rev".
 Extraction "model.ml" Model.Oracle.handle Byte.of_N Byte.to_N.
